@@ -194,12 +194,44 @@ func TestVerifC07(t *testing.T) {
 				g := ref.NewGCM(c.key)
 				sealed := g.Seal(c.nonce, c.pt, c.aad, c.tag)
 				a, err := newAEAD(c.key, len(c.nonce), c.tag)
+				if err == errComboUnreachable {
+					r.Class("trivial:nonce-x-tag-not-offered-on-this-path")
+					return
+				}
 				if err != nil {
 					r.Violation("cannot-construct-aead:"+pn, hk.D{"err": err.Error()})
 					return
 				}
 				open(a, c, openProbe{c.nonce, sealed, c.aad, "authentic"}, c.pt, true)
 				n := 1
+				// the authentic message opened IN PLACE (dst = ciphertext[:0], the idiom the interface documents)
+				if i%2 == 1 {
+					buf := append([]byte{}, sealed...)
+					var got []byte
+					var oerr error
+					p, msg, _, _ := hk.Try(func() { got, oerr = a.Open(buf[:0], c.nonce, buf, c.aad) })
+					if p || oerr != nil || !bytes.Equal(got, c.pt) {
+						dd := c.detail()
+						dd["panic"], dd["err"], dd["returned"] = msg, fmt.Sprint(oerr), clip(got)
+						r.Violation(fmt.Sprintf("authentic-message-rejected:%s:opened-in-place", pn), dd)
+					}
+					n++
+				}
+				// the additional data ARE the bytes dst already holds, and dst has no spare capacity (a record header used as
+				// both): the header is read while the result moves to a new array; it must be read intact and stay intact
+				if i%4 == 0 && len(c.aad) > 0 {
+					hdr := append(make([]byte, 0, len(c.aad)), c.aad...)
+					hdr = hdr[:len(hdr):len(hdr)]
+					var got []byte
+					var oerr error
+					p, msg, _, _ := hk.Try(func() { got, oerr = a.Open(hdr, c.nonce, sealed, hdr) })
+					if p || oerr != nil || !bytes.Equal(got, append(append([]byte{}, c.aad...), c.pt...)) || !bytes.Equal(hdr, c.aad) {
+						dd := c.detail()
+						dd["panic"], dd["err"], dd["header_after"] = msg, fmt.Sprint(oerr), hk.Hex(hdr)
+						r.Violation(fmt.Sprintf("authentic-message-rejected:%s:dst-prefix-without-room-is-the-additional-data", pn), dd)
+					}
+					n++
+				}
 				// the authentic message opened INTO a caller's buffer: a prefix that must survive, room that is exactly
 				// enough / ample / missing; the plaintext comes back behind the prefix
 				if i%2 == 0 {
@@ -338,6 +370,38 @@ func TestVerifC07(t *testing.T) {
 				}
 			}
 
+			// (1a') a LONG history on one AEAD: 2^16 + 10 rejected forgeries (and as many seals), then the authentic message -
+			// whatever the object counts, it must not run out
+			{
+				key := rng.Bytes(16)
+				g := ref.NewGCM(key)
+				a, err := newAEAD(key, 12, 16)
+				if err == nil {
+					nonce, aad, pt := rng.Bytes(12), rng.Bytes(5), rng.Bytes(20)
+					sealed := g.Seal(nonce, pt, aad, 16)
+					bad := flipBit(sealed, 3)
+					accepted := 0
+					nForged := 1<<16 + 10
+					if hk.Thorough() {
+						nForged = 1<<20 + 10
+					}
+					for q := 0; q < nForged; q++ {
+						bad[q%len(bad)] ^= byte(1 + q%255)
+						if _, e := a.Open(nil, nonce, bad, aad); e == nil && !bytes.Equal(bad, sealed) {
+							accepted++
+						}
+						if q%4 == 0 {
+							a.Seal(nil, nonce, pt[:q%len(pt)], aad)
+						}
+					}
+					got, oerr := a.Open(nil, nonce, sealed, aad)
+					if accepted != 0 || oerr != nil || !bytes.Equal(got, pt) || !bytes.Equal(a.Seal(nil, nonce, pt, aad), sealed) {
+						r.Violation("authentic-message-rejected:after-a-long-history-of-forgeries-on-one-aead:"+pn, hk.D{"key": hk.Hex(key), "forgeries_before": nForged, "forgeries_accepted": accepted, "err": fmt.Sprint(oerr)})
+					}
+					r.EvalN("long-history-on-one-aead:"+pn, nForged)
+				}
+			}
+
 			// (1b) ONE AEAD object serving many goroutines that open (authentic and forged messages mixed): every
 			// authentic message must come back, every forgery must be refused - an AEAD is not a one-caller object
 			{
@@ -380,6 +444,10 @@ func TestVerifC07(t *testing.T) {
 				g := ref.NewGCM(c.key)
 				sealed := g.Seal(c.nonce, c.pt, c.aad, c.tag)
 				a, err := newAEAD(c.key, len(c.nonce), c.tag)
+				if err == errComboUnreachable {
+					r.Class("trivial:nonce-x-tag-not-offered-on-this-path")
+					continue
+				}
 				if err != nil {
 					r.Violation("cannot-construct-aead:"+pn, hk.D{"err": err.Error()})
 					continue
